@@ -14,7 +14,7 @@ import (
 func init() {
 	register(&propInfo{
 		ID:          "C01",
-		Explanation: "Symbolic comparison of index expressions (linear forms over loop indexes and descriptor fields, resolved through locals, helpers and the stores that fill the descriptor fields) at the places where argument and result positions are decided: (R01.1) on the server the slot of the reflective call's argument list into which parameter i is stored equals the index of the declared input whose type was used to decode it (the receiver-type table is filled with In(e1) at index e2; the value decoded with entry j is stored at slot e1[e2:=j]); (R01.2) the argument list is made with as many slots as the method has inputs, and the context is placed in exactly the input position that was tested for being a context (server: behind the receiver; client: first argument); (R01.3) on the client the i-th wire parameter is the argument at position i + (number of leading context arguments), for the same i, and the parameter list has len(args) minus that number of entries. These are the structural halves of 'calling the client function runs the handler with those arguments': a position mismatch makes reflect.Call panic or hands an argument to the wrong parameter for signatures the suite does not exercise (context plus several parameters, three or more parameters). (R01.4) no frame, parameter or result bytes live in sync.Pool memory that is put back (also by a deferred closure) while a slice of it was sent on a channel or returned; (R01.5) every handler argument is decoded into a fresh reflect.New of the declared type; (R01.6) the context input and error output of a signature are recognised by identity of the declared In/Out type with the reference type, never by Implements/AssignableTo/ConvertibleTo. (R01.7) between building the response and emitting it the result or the error member is set on every path; (R01.8) tables filled by options are made per configuration value; (R01.9) no proxy function is bound to a copy of the client. (R01.10) before the handler runs a request is refused only for an unknown method, an unsupported channel mode or bad params. (R01.11) the reply's result is decoded whenever it is present, not depending on its bytes; (R01.12) the reverse client is built per connection. (R01.13) every wire parameter is the caller's argument or a parameter encoder's result; (R01.14) inbound frames are decoded into fresh memory. R01.8 also: not made in a function that runs once per process; (R01.15) the params member of the wire request is always written. (R01.16) the frame executor never blocks on something only a finishing handler releases. (R01.17) no append onto a prefix reslice of a byte buffer that arrived from elsewhere. (R01.18) a possibly nil call context (client functions without a context parameter) is never dereferenced without a test for nil.",
+		Explanation: "Symbolic comparison of index expressions (linear forms over loop indexes and descriptor fields, resolved through locals, helpers and the stores that fill the descriptor fields) at the places where argument and result positions are decided: (R01.1) on the server the slot of the reflective call's argument list into which parameter i is stored equals the index of the declared input whose type was used to decode it (the receiver-type table is filled with In(e1) at index e2; the value decoded with entry j is stored at slot e1[e2:=j]); (R01.2) the argument list is made with as many slots as the method has inputs, and the context is placed in exactly the input position that was tested for being a context (server: behind the receiver; client: first argument); (R01.3) on the client the i-th wire parameter is the argument at position i + (number of leading context arguments), for the same i, and the parameter list has len(args) minus that number of entries. These are the structural halves of 'calling the client function runs the handler with those arguments': a position mismatch makes reflect.Call panic or hands an argument to the wrong parameter for signatures the suite does not exercise (context plus several parameters, three or more parameters). (R01.4) no frame, parameter or result bytes live in sync.Pool memory that is put back (also by a deferred closure) while a slice of it was sent on a channel or returned; (R01.5) every handler argument is decoded into a fresh reflect.New of the declared type; (R01.6) the context input and error output of a signature are recognised by identity of the declared In/Out type with the reference type, never by Implements/AssignableTo/ConvertibleTo. (R01.7) between building the response and emitting it the result or the error member is set on every path; (R01.8) tables filled by options are made per configuration value; (R01.9) no proxy function is bound to a copy of the client. (R01.10) before the handler runs a request is refused only for an unknown method, an unsupported channel mode or bad params. (R01.11) the reply's result is decoded whenever it is present, not depending on its bytes; (R01.12) the reverse client is built per connection. (R01.13) every wire parameter is the caller's argument or a parameter encoder's result; (R01.14) inbound frames are decoded into fresh memory. R01.8 also: not made in a function that runs once per process; (R01.15) the params member of the wire request is always written. (R01.16) the frame executor never blocks on something only a finishing handler releases. (R01.17) no append onto a prefix reslice of a byte buffer that arrived from elsewhere. (R01.18) a possibly nil call context (client functions without a context parameter) is never dereferenced without a test for nil. (R01.19) the socket's read limit is not derived from the option that bounds HTTP request bodies.",
 		NotDecided:  "Everything about values: JSON round trips (nil vs empty, 64-bit extremes, escaping), custom encoders/decoders, result positions computed by processFuncOut, equality of outcomes across transports and name formatters. Shapes that do not use index arithmetic (an argument list built by append) are reported as not compared, not as violations.",
 		Assumptions: []string{"reflect.Call requires argument k to be assignable to input k of the function", "descriptor fields are written only by the visible stores (closed struct types)"},
 		Run:         runC01,
@@ -260,6 +260,8 @@ func runC01(c *Ctx) {
 	c.noAppendIntoForeignBytes("R01.17")
 	c.rule("R01.18", "a client function without a context parameter works like one with: the nil context it is called with is never dereferenced (no method call on it, not handed to code outside the module) without a test for nil")
 	c.nilContextRule("R01.18")
+	c.ruleOpt("R01.19", "results of any size come back over a WebSocket: the socket's read limit is not derived from the option that bounds HTTP request bodies (frames also carry responses to reverse calls and stream values, which that option says nothing about)")
+	c.readLimitNotRequestSize("R01.19")
 	c.noWaitBeforeHandler("R01.16")
 	c.ruleOpt("R01.1", "server: the argument-list slot a decoded parameter is stored in equals the index of the declared input whose type decoded it")
 	c.ruleOpt("R01.2", "the argument list has one slot per declared input; the context sits in the input position that was tested for being a context (server and client)")
@@ -1225,4 +1227,73 @@ func (c *Ctx) runsOnce(fn *ssa.Function) bool {
 		}
 	}
 	return false
+}
+
+// readLimitNotRequestSize: R01.19 = R16.14. The option that bounds the size of an HTTP request body is about
+// requests. A WebSocket carries, in the same direction, the *responses* to reverse calls and the values of
+// streams; putting that bound on the socket with SetReadLimit makes gorilla fail the read — and the whole
+// connection — as soon as a client-side handler returns a result larger than the largest request the server
+// wants to accept. Reported: a (*websocket.Conn).SetReadLimit whose argument depends on a field that also
+// feeds the byte count of an io.LimitReader (the HTTP body limit), directly or through a copy into another field.
+func (c *Ctx) readLimitNotRequestSize(rule string) {
+	p := c.P
+	limitFields := map[*types.Var]bool{}
+	for _, fn := range p.Funcs {
+		if !p.inTree(fn) {
+			continue
+		}
+		allInstrs(fn, func(in ssa.Instruction) {
+			call, ok := in.(*ssa.Call)
+			if !ok || calleeName(call) != "io.LimitReader" || len(call.Common().Args) != 2 {
+				return
+			}
+			c.dependsOn(call.Common().Args[1], func(v ssa.Value) bool {
+				if f := loadedField(v); f != nil {
+					limitFields[f] = true
+				}
+				return false
+			}, 0, map[ssa.Value]bool{})
+		})
+	}
+	// copies: a field stored from a load of a limit field
+	for changed := true; changed; {
+		changed = false
+		for _, fn := range p.Funcs {
+			if !p.inTree(fn) {
+				continue
+			}
+			allInstrsRaw(fn, func(in ssa.Instruction) {
+				st, ok := in.(*ssa.Store)
+				if !ok {
+					return
+				}
+				fa, ok := st.Addr.(*ssa.FieldAddr)
+				if !ok {
+					return
+				}
+				if f := loadedField(stripConvInt(st.Val)); f != nil && limitFields[f] && !limitFields[fieldOfAddr(fa)] {
+					limitFields[fieldOfAddr(fa)] = true
+					changed = true
+				}
+			})
+		}
+	}
+	n := 0
+	for _, ci := range gorillaConnCalls(p) {
+		if methodOf(ci) != "SetReadLimit" {
+			continue
+		}
+		args := ci.Common().Args
+		dep := c.dependsOn(args[len(args)-1], func(v ssa.Value) bool {
+			f := loadedField(v)
+			return f != nil && limitFields[f]
+		}, 0, map[ssa.Value]bool{})
+		if dep {
+			n++
+			c.bad(rule, fmt.Sprintf("%s: read limit of the socket", fname(ci.Parent())), c.ipos(ci), "the WebSocket read limit is taken from the option that bounds HTTP request bodies: a response to a reverse call (or a stream value) larger than the largest accepted request tears the connection down, and the calls in progress with it")
+		}
+	}
+	if n == 0 {
+		c.ok(rule, "no instance", "-", "no socket read limit derived from the request-size option")
+	}
 }
